@@ -54,6 +54,11 @@ func c08Groups(tier string) []core.Group {
 			gs = append(gs, core.Group{Key: fmt.Sprintf("%s/%s", red, model.Name(t)), Run: func(c *core.Ctx) { c08Run(c, red, t) }})
 		}
 	}
+	// strings are an ordered element type for the arg-reductions (the library has no string Sum/Max/Min kernels and refuses those)
+	for _, red := range []string{"Argmax", "Argmin"} {
+		red := red
+		gs = append(gs, core.Group{Key: fmt.Sprintf("%s/%s", red, model.Name(model.TStr)), Run: func(c *core.Ctx) { c08Run(c, red, model.TStr) }})
+	}
 	return gs
 }
 
@@ -143,6 +148,9 @@ func reduceFn(t reflect.Type) interface{} {
 
 func c08Run(c *core.Ctx, red string, t reflect.Type) {
 	classes := []string{"small", "ties", "edge"}
+	if t == model.TStr {
+		classes = []string{"small", "ties"}
+	}
 	if model.IsSigned(t) || model.IsFloat(t) {
 		classes = append(classes, "neg")
 	}
@@ -322,8 +330,18 @@ func c08Run(c *core.Ctx, red string, t reflect.Type) {
 			}
 		}
 	}
-	// negative control: a wrong expectation must be noticed
+	// negative control: a wrong expectation must be noticed (strings: the positions of the maxima against those of the minima)
 	op, err := gen.Build(model.New(t, []int{2, 3}, gen.Distinct(t, 6, c.Rng, 1, 3)), gen.LC, c.Rng)
+	if err == nil && t == model.TStr {
+		res, e := op.D.Argmax(1)
+		if e == nil {
+			want := model.ArgExt(op.M, 1, func(x, best interface{}) bool { return model.Less(x, best) }) // positions of the minima
+			c.Control(gen.ReadMatchesBy(res, want, model.Equal) != nil)
+		} else {
+			c.Control(false)
+		}
+		return
+	}
 	if err == nil {
 		res, e := op.D.Sum(0)
 		if e == nil {
